@@ -47,6 +47,15 @@ func init() {
 }
 
 func init() {
+	// C06: PUB fan-out over the real inproc transport with subscribers that overwrite what they
+	// received in place: every subscriber still gets the published bytes (all interleavings)
+	vexplore.Register("C06", func(tier string) []*vexplore.Scenario {
+		b := map[string]int{"quick": 1, "thorough": 2}[tier]
+		return []*vexplore.Scenario{{Name: "pub-fanout-inproc-subscribers-overwrite-in-place", Mode: "sched", Bound: b, Cfg: vsched.Config{AtomicPoints: true}, Reset: kit.ResetGlobals, Body: fanoutPubSub}}
+	})
+}
+
+func init() {
 	vexplore.Register("C17", func(tier string) []*vexplore.Scenario {
 		b := 2
 		if tier == "thorough" {
